@@ -1,10 +1,17 @@
 package minijson
 
+import "sort"
+
 func MarshalStringMapInferred(s map[string]string) string {
 	var jb JsonObjectBuilder
 	jb.OpenEx(len(s) * 50)
-	for k, v := range s {
-		jb.WriteString(k, v)
+	keys := make([]string, 0, len(s))
+	for k := range s {
+		keys = append(keys, k)
+	}
+	sort.Strings(keys) // same map, same text (map iteration order is random)
+	for _, k := range keys {
+		jb.WriteString(k, s[k])
 	}
 	jb.Close()
 	return jb.String()
